@@ -410,12 +410,12 @@ def run(ctx):
             continue
         facts = ctx.facts(cfg)
         reemit.accounting_rule(ctx, facts, cfg, 'C07.a', RS, havoc=4)
-        reemit.rewrite_on_every_path_rule(ctx, facts, cfg, 'C07.a', RS, ('Renamer::copy_with_replaced_name', 'Compress::copy_compressed_name_with_base_offset'), floor=3)
+        reemit.rewrite_on_every_path_rule(ctx, facts, cfg, 'C07.a', RS, ('Renamer::copy_with_replaced_name', 'Compress::copy_compressed_name_with_base_offset'), floor=2)
         reemit.names_on_every_path_rule(ctx, facts, cfg, 'C07.i', RS, ('Renamer::copy_with_replaced_name',), 'comparing it with the source name')
         reemit.dispatch_rule(ctx, facts, cfg, 'C07.b', RS, 'renaming')
         default_arm_rule(ctx, facts, cfg)
         reemit.cursor_rule(ctx, facts, cfg, 'C07.c', [TOP])
-        reemit.open_ended_rule(ctx, facts, cfg, 'C07.c', TOP, ('renamer::',), 4, 'the renamer')
+        reemit.open_ended_rule(ctx, facts, cfg, 'C07.c', TOP, ('renamer::',), 2, 'the renamer')   # 5 sites on the pinned tree
         decision_rule(ctx, facts, cfg)
         boundary_rule(ctx, facts, cfg)
         window_rule(ctx, facts, cfg)
